@@ -125,6 +125,7 @@ func (s *Session) appendOp(fr *Frame, cc *ssa.CallCommon, args []Val, st *State)
 			st.Heap[names[i]] = s.define("H", Store(h, ptr, content))
 		}
 		newLen = s.define("len", Add(st0.L[2], I(int64(k))))
+		s.assume(Le(newLen, bigT(maxSliceLen)))
 		return Val{Typ: cc.Args[0].Type(), L: []T{ptr, st0.L[1], newLen}}
 	}
 	// symbolic number of elements: quantified description of the new array
@@ -136,16 +137,15 @@ func (s *Session) appendOp(fr *Frame, cc *ssa.CallCommon, args []Val, st *State)
 		jt := T{j, SInt}
 		oldArr := Select(h, st0.L[0])
 		srcArr := Select(h, add.L[0])
-		ax1 := fmt.Sprintf("(forall ((%s Int)) (! (=> (and (<= 0 %s) (< %s %s)) (= (select %s %s) (select %s (+ %s %s)))) :pattern ((select %s %s))))",
-			j, j, j, st0.L[2].S, na.S, j, oldArr.S, st0.L[1].S, j, na.S, j)
-		ax2 := fmt.Sprintf("(forall ((%s Int)) (! (=> (and (<= 0 %s) (< %s %s)) (= (select %s (+ %s %s)) (select %s (+ %s %s)))) :pattern ((select %s (+ %s %s)))))",
-			j, j, j, add.L[2].S, na.S, st0.L[2].S, j, srcArr.S, add.L[1].S, j, na.S, st0.L[2].S, j)
+		ax := fmt.Sprintf("(forall ((%s Int)) (! (=> (and (<= 0 %s) (< %s (+ %s %s))) (= (select %s %s) (ite (< %s %s) (select %s (+ %s %s)) (select %s (+ %s (- %s %s)))))) :pattern ((select %s %s))))",
+			j, j, j, st0.L[2].S, add.L[2].S, na.S, j, j, st0.L[2].S, oldArr.S, st0.L[1].S, j, srcArr.S, add.L[1].S, j, st0.L[2].S, na.S, j)
 		_ = jt
-		s.assume(T{ax1, SBool})
-		s.assume(T{ax2, SBool})
+		s.assume(T{ax, SBool})
 		st.Heap[names[i]] = s.define("H", Store(h, ptr, na))
 	}
-	return Val{Typ: cc.Args[0].Type(), L: []T{ptr, I(0), s.define("len", Add(st0.L[2], add.L[2]))}}
+	nl := s.define("len", Add(st0.L[2], add.L[2]))
+	s.assume(Le(nl, bigT(maxSliceLen))) // a longer slice cannot exist (append would have panicked: out of memory)
+	return Val{Typ: cc.Args[0].Type(), L: []T{ptr, I(0), nl}}
 }
 
 // knownLen recognises slices whose length term is a numeral.
@@ -302,6 +302,16 @@ func init() {
 				return scalar(fn.Signature.Results().At(0).Type(), r)
 			}
 		}
+	}
+	builtinModels["bytes.Equal"] = func(s *Session, fr *Frame, fn *ssa.Function, args []Val, st *State) Val {
+		h := s.heapGet(st, heapName("A", "byte", ""), arrSort(arrSort(SInt)))
+		a := s.uf("bytes2str", SInt, Select(h, args[0].L[0]), args[0].L[1], args[0].L[2])
+		b := s.uf("bytes2str", SInt, Select(h, args[1].L[0]), args[1].L[1], args[1].L[2])
+		// equal contents <=> equal denoted strings; different lengths are never equal
+		r := s.fresh("byteseq", SBool)
+		s.assume(Imp(r, And(Eq(a, b), Eq(args[0].L[2], args[1].L[2]))))
+		s.assume(Imp(And(Eq(args[0].L[2], I(0)), Eq(args[1].L[2], I(0))), r))
+		return scalar(types.Typ[types.Bool], r)
 	}
 	// strconv round trip
 	builtinModels["strconv.FormatUint"] = func(s *Session, fr *Frame, fn *ssa.Function, args []Val, st *State) Val {
